@@ -355,6 +355,12 @@ func mainErr(args []string) error {
 // Note that it uses and modifies global state; in general, it should only be
 // called once from mainErr in the top-level garble process.
 func toolexecCmd(command string, args []string) (*exec.Cmd, error) {
+	// A top-level command never uses a parent garble's shared directory,
+	// which it can inherit when e.g. a test run by "garble test" calls "garble build".
+	// Forget it, so that if we fail before creating our own below,
+	// our caller's deferred cleanup cannot remove a directory we do not own.
+	os.Unsetenv("GARBLE_SHARED")
+
 	// Split the flags from the package arguments, since we'll need
 	// to run 'go list' on the same set of packages.
 	flags, args := splitFlagsFromArgs(args)
